@@ -312,11 +312,15 @@ where
         };
 
         self.storage()
-            .save_processed_welcome(processed_welcome)
+            .save_welcome(welcome.clone())
             .map_err(|e| Error::Welcome(e.to_string()))?;
 
+        // The processed record is what a later call for the same wrapper id short-circuits on,
+        // so it is written last: if the call is interrupted before this point, processing the
+        // invitation again simply redoes the writes above instead of finding a record that
+        // points at a welcome which was never stored.
         self.storage()
-            .save_welcome(welcome.clone())
+            .save_processed_welcome(processed_welcome)
             .map_err(|e| Error::Welcome(e.to_string()))?;
 
         Ok(welcome)
